@@ -199,6 +199,8 @@ type vfWorld struct {
 	cacheSynced   map[string]bool
 	agentSim      *vfAgent
 	okta          *simOkta
+	readsDown     bool
+	readsDownDigest string
 	returnedCerts map[string]int
 	lockoutPause  time.Duration
 	idp           *simIdP
